@@ -1,6 +1,7 @@
 package c11
 
 import (
+	"fmt"
 	"os"
 	"testing"
 
@@ -64,7 +65,7 @@ func genText(t *rapid.T) (string, string) {
 func genOp(t *rapid.T, focus []string) Op {
 	// weights: definitions dominate; the rest interleaves
 	k := rapid.SampledFrom([]string{"def", "def", "def", "def", "def", "def", "def", "def", "def", "def", "def",
-		"firstpage", "pagesize", "orient", "margins", "hfdist", "image", "list", "para", "reopen", "reopen", "reopen", "render", "render", "render2", "render2", "render2"}).Draw(t, "k")
+		"firstpage", "pagesize", "orient", "margins", "hfdist", "image", "list", "para", "reopen", "reopen", "reopen", "reopen", "render", "render", "render2", "render2", "render2"}).Draw(t, "k")
 	return genOpOf(t, k, focus)
 }
 
@@ -131,30 +132,103 @@ func genOpOf(t *rapid.T, k string, focus []string) Op {
 	return Op{K: k}
 }
 
-// genStart draws the header/footer layout of a document written by another producer: 1-4 distinct slots, parts named
-// in creation order like Word does (header1.xml, header2.xml ... in no relation to the kind) or like the library does.
+// genStart draws the header/footer layout of a document written by another producer: which of the six slots exist
+// (any subset), how the parts are named (Word numbers them in creation order, in no relation to the kind; other
+// producers use folders or names of their own), how the relationship targets are spelt (relative, ./, absolute part
+// name, through ..), which ids the relationships carry, in which order w:sectPr lists the references, whether a part
+// brings a relationship part and a picture of its own, and whether a part is left unreferenced.
+var (
+	freeHdr = []string{"hdr_a.xml", "pagehead.xml", "h.xml"}
+	freeFtr = []string{"ftr_a.xml", "pagefoot.xml", "f.xml"}
+	folders = []string{"headers", "hf", "parts/hf"}
+)
+
 func genStart(t *rapid.T) *Start {
 	idx := rapid.Permutation([]int{0, 1, 2, 3, 4, 5}).Draw(t, "slots")
-	n := rapid.IntRange(1, 4).Draw(t, "nslots")
-	wordNames := rapid.IntRange(0, 3).Draw(t, "wordnames") > 0
+	n := rapid.SampledFrom([]int{1, 2, 3, 4, 2, 3, 5, 6, 0}).Draw(t, "nslots")
+	naming := rapid.SampledFrom([]string{"word", "word", "lib", "swap", "sub", "sub", "free"}).Draw(t, "naming")
+	tgtMode := rapid.SampledFrom([]string{"", "", "abs", "abs", "dot", "up", "mixed", "mixed"}).Draw(t, "tgtmode")
+	idMode := rapid.SampledFrom([]string{"seq", "seq", "gap", "named"}).Draw(t, "idmode")
+	folder := ""
+	if naming == "sub" {
+		folder = rapid.SampledFrom(folders).Draw(t, "folder") + "/"
+	}
+	rot := rapid.IntRange(1, 2).Draw(t, "rot")
 	st := &Start{}
 	nh, nf := 0, 0
-	for _, i := range idx[:n] {
+	for j, i := range idx[:n] {
 		k := allKeys[i]
 		s := StartSlot{Footer: k.Footer, Kind: k.Kind, Text: "other producer's " + k.String()}
-		if wordNames {
-			if k.Footer {
-				nf++
-				s.Part = "footer" + string(rune('0'+nf)) + ".xml"
-			} else {
-				nh++
-				s.Part = "header" + string(rune('0'+nh)) + ".xml"
-			}
+		num := 0
+		if k.Footer {
+			nf++
+			num = nf
 		} else {
-			s.Part = libPart(k)
+			nh++
+			num = nh
 		}
+		switch naming {
+		case "lib":
+			s.Part = libPart(k)
+		case "swap": // the library's names, attached to other kinds
+			ki := 0
+			for x, kd := range kinds {
+				if kd == k.Kind {
+					ki = x
+				}
+			}
+			s.Part = libPart(key{k.Footer, kinds[(ki+rot)%3]})
+		case "free":
+			if k.Footer {
+				s.Part = freeFtr[num-1]
+			} else {
+				s.Part = freeHdr[num-1]
+			}
+		default: // "word", "sub": numbered in creation order
+			if k.Footer {
+				s.Part = fmt.Sprintf("%sfooter%d.xml", folder, num)
+			} else {
+				s.Part = fmt.Sprintf("%sheader%d.xml", folder, num)
+			}
+		}
+		switch tgtMode {
+		case "mixed":
+			s.Tgt = rapid.SampledFrom([]string{"", "abs", "dot", "up"}).Draw(t, "tgt")
+		default:
+			s.Tgt = tgtMode
+		}
+		switch idMode {
+		case "gap":
+			s.ID = fmt.Sprintf("rId%d", 4+3*j+rapid.IntRange(0, 2).Draw(t, "idgap"))
+		case "named":
+			s.ID = fmt.Sprintf("%s%d", rapid.SampledFrom([]string{"hf", "R", "rIdHdr", "id_"}).Draw(t, "idname"), j+1)
+		}
+		s.Pic = rapid.IntRange(0, 4).Draw(t, "pic") == 4
+		s.Unref = rapid.IntRange(0, 9).Draw(t, "unref") == 9
 		st.Slots = append(st.Slots, s)
 	}
+	if n > 1 && rapid.IntRange(0, 2).Draw(t, "permrefs") > 0 {
+		base := make([]int, n)
+		for i := range base {
+			base[i] = i
+		}
+		ord := rapid.Permutation(base).Draw(t, "reforder")
+		for i, v := range ord {
+			if v != i {
+				st.RefOrder = ord
+				break
+			}
+		}
+	}
+	switch rapid.IntRange(0, 3).Draw(t, "stylesrel") {
+	case 1:
+		st.StylesLast = true
+	case 2:
+		st.StylesID, st.StylesLast = "rId90", true
+	case 3:
+		st.StylesID = "styles"
+	}
+	st.File = rapid.IntRange(0, 5).Draw(t, "viafile") == 5
 	return st
 }
 
@@ -162,8 +236,18 @@ func genCase(t *rapid.T) Case {
 	n := rapid.IntRange(1, kit.Scale(14, 24)).Draw(t, "n")
 	focus := []string{rapid.SampledFrom(kinds).Draw(t, "focus1"), rapid.SampledFrom(kinds).Draw(t, "focus2")}
 	var c Case
-	if rapid.IntRange(0, 3).Draw(t, "foreign") == 0 {
+	if rapid.IntRange(0, 2).Draw(t, "foreign") == 0 {
 		c.Start = genStart(t)
+		// a history on an opened document redefines kinds the document brought along and defines kinds it lacks
+		var have []string
+		for _, s := range c.Start.Slots {
+			if !s.Unref {
+				have = append(have, s.Kind)
+			}
+		}
+		if len(have) > 0 {
+			focus[0] = rapid.SampledFrom(have).Draw(t, "focusexisting")
+		}
 	}
 	for i := 0; i < n; i++ {
 		c.Ops = append(c.Ops, genOp(t, focus))
@@ -185,21 +269,33 @@ func fixedCases() []Case {
 			{K: "render2", Ord: "rrab", XA: []Op{{K: "hdr", Kind: "even", Text: "A even", Cls: "ascii"}}, XB: []Op{{K: "ftrpn", Kind: "even", Text: "B even", PN: true, Cls: "ascii"}}},
 			{K: "ftr", Kind: "first", Text: "T first", Cls: "ascii"}}},
 		{Ops: []Op{{K: "hdrfmt", Kind: "even", Text: "T", Cls: "ascii", Align: "center", Fmt: &Fmt{Bold: true, Size: 10, Color: "8e8e8e", Font: "Arial"}}, {K: "firstpage", B: true}, {K: "ftrfmt", Kind: "first", Text: "F", Cls: "ascii", Align: "right"}, {K: "reopen"}}},
+		// another producer's spellings: absolute and ./ targets, a part in a sub-folder with a picture of its own, references in
+		// another order than the relationships, ids that are not rIdN; every kind it defines is redefined, a missing one defined
+		{Start: &Start{Slots: []StartSlot{{Kind: "first", Part: "header1.xml", Text: "P first", Tgt: "abs", ID: "hf1"}, {Kind: "default", Part: "headers/header2.xml", Text: "P default", Tgt: "dot", ID: "hf2", Pic: true},
+			{Footer: true, Kind: "default", Part: "footer1.xml", Text: "P footer", Tgt: "up", ID: "hf3"}, {Footer: true, Kind: "even", Part: "footer2.xml", Text: "P even footer", ID: "hf4", Unref: true}},
+			RefOrder: []int{2, 1, 0, 3}, StylesID: "rId90", StylesLast: true},
+			Ops: []Op{{K: "hdr", Kind: "first", Text: "new first", Cls: "ascii"}, {K: "ftrpn", Kind: "default", Text: "new footer", PN: true, Cls: "ascii"}, {K: "reopen"},
+				{K: "hdrfmt", Kind: "default", Text: "new default", Cls: "ascii", Align: "center", Fmt: &Fmt{Bold: true}}, {K: "ftr", Kind: "even", Text: "new even footer", Cls: "ascii"}, {K: "render", B: true},
+				{K: "hdr", Kind: "even", Text: "new even", Cls: "ascii"}, {K: "reopen"}}},
 	}
 }
 
 func TestC11(t *testing.T) {
 	kit.Main(t, kit.Spec[Case]{
 		ID: "C11", Level: "exploration",
-		Rule: "history of 1-14 (thorough 1-24) calls: the six header/footer definition entry points (AddHeader, AddFooter, Add{Header,Footer}WithPageNumber, AddFormatted{Header,Footer}) x {default, first, even} with XML-expressible texts (ascii, unicode, XML metacharacters, edge/only white space, empty), formats (bold, italic, underline, strike, size, colour, font via FontFamily / FontName alias / both, highlight, nil format, nil config) and alignments, the kind drawn mostly from a 2-element focus set so that slots are redefined; interleaved with SetDifferentFirstPage, page-setting calls, images, list items, paragraphs, save->OpenFromMemory (continue on the reopened document) and a no-data LoadTemplateFromDocument+RenderTemplateToDocument (judged; continue on the result in half of the cases), and a render-twice step: one LoadTemplateFromDocument, two RenderTemplateToDocument calls, each rendered document then receives 1-3 further calls of its own (definitions over all kinds, image, list, paragraph, page settings; renders and extensions ordered A B xA xB / A xA B xB / alternating) and only then both are judged, each against the template's model plus its own calls; the history continues on the template or on either rendered document. Every document a render step leaves behind (template or rendered) is judged once more, against the model it had, at the end of the history. One history in four starts from a document of another producer (written by the harness) that already defines 1-4 slots in parts named like Word names them (header1..n.xml in creation order) or like the library does, instead of document.New(). Reference model: slot (header|footer x kind) -> most recent definition (call, or the opened document's). The package is saved and judged with an independent zip/XML reader after every definition, open, reopen, render and at the end. non-trivial = >=2 definition calls and (some slot defined more than once, or a definition carried over a reopen/render); distinct = distinct sequence of (start layout, entry point, kind, page-number/format/empty flags, other op kinds)",
+		Rule: "history of 1-14 (thorough 1-24) calls: the six header/footer definition entry points (AddHeader, AddFooter, Add{Header,Footer}WithPageNumber, AddFormatted{Header,Footer}) x {default, first, even} with XML-expressible texts (ascii, unicode, XML metacharacters, edge/only white space, empty), formats (bold, italic, underline, strike, size, colour, font via FontFamily / FontName alias / both, highlight, nil format, nil config) and alignments, the kind drawn mostly from a 2-element focus set so that slots are redefined; interleaved with SetDifferentFirstPage, page-setting calls, images, list items, paragraphs, save->OpenFromMemory (continue on the reopened document) and a no-data LoadTemplateFromDocument+RenderTemplateToDocument (judged; continue on the result in half of the cases), and a render-twice step: one LoadTemplateFromDocument, two RenderTemplateToDocument calls, each rendered document then receives 1-3 further calls of its own (definitions over all kinds, image, list, paragraph, page settings; renders and extensions ordered A B xA xB / A xA B xB / alternating) and only then both are judged, each against the template's model plus its own calls; the history continues on the template or on either rendered document. Every document a render step leaves behind (template or rendered) is judged once more, against the model it had, at the end of the history. One history in three starts, instead of document.New(), from a document of another producer (written by the harness with string templates, opened with OpenFromMemory or Open) that defines any subset of the six slots (0-6), in parts named like Word names them (header1..n.xml / footer1..n.xml in creation order, the number saying nothing about the kind), like the library does, with the library's names attached to other kinds, with free names, or in a sub-folder of word/ (word/headers/header1.xml, word/parts/hf/...); relationship targets spelt relative (header1.xml), with ./, as absolute part names (/word/header1.xml) or through the parent folder (../word/header1.xml), uniformly or mixed; relationship ids contiguous, with gaps or not of the rIdN form, the styles relationship first/last and rId1 or not; the references of w:sectPr in any order; parts with a relationship part and a picture of their own; parts that have a relationship but no reference (such a kind is not defined). On such a document the focus set holds a kind the document defines, so that the history both redefines existing kinds and defines missing ones through all six entry points. Reference model: slot (header|footer x kind) -> most recent definition (call, or the opened document's). The package is saved and judged with an independent zip/XML reader after every definition, open, reopen, render and at the end. non-trivial = >=2 definition calls and (some slot defined more than once, or a definition carried over a reopen/render); distinct = distinct sequence of (start layout, entry point, kind, page-number/format/empty flags, other op kinds)",
 		Gen:  genCase, Run: run, Findings: findings, Fixed: fixedCases,
 		MustSee: map[string]float64{"repeat-kind": 0.4, "reopen": 0.3, "render": 0.15, "render-twice": 0.1, "render-twice:both-add-a-part,different": 0.03, "render-twice:both-define-a-new-kind": 0.02, "redefine-after-reopen-or-render": 0.1, "page-number": 0.3, "formatted": 0.3,
-			"all-three-kinds": 0.1, "definition-carried-over-reopen-or-render": 0.3, "foreign-start": 0.15, "foreign-start:word-part-names": 0.08, "text:xmlmeta": 0.2, "text:edgews": 0.2, "text:unicode": 0.2},
+			"all-three-kinds": 0.1, "definition-carried-over-reopen-or-render": 0.3, "foreign-start": 0.2, "foreign-start:word-part-names": 0.1,
+			"foreign-start:redefine-existing-kind": 0.08, "foreign-start:define-missing-kind": 0.1, "foreign-start:redefine-existing-kind:target-abs": 0.02, "foreign-start:redefine-existing-kind:target-dot": 0.01,
+			"foreign-start:redefine-existing-kind:target-up": 0.01, "foreign-start:redefine-existing-kind:part-in-subfolder": 0.015, "foreign-start:redefine-existing-kind:part-with-own-rels": 0.02,
+			"foreign-start:references-permuted": 0.05, "foreign-start:unreferenced-part": 0.03, "foreign-start:ids-not-contiguous": 0.05, "foreign-start:opened-from-file": 0.02, "text:xmlmeta": 0.2, "text:edgews": 0.2, "text:unicode": 0.2},
 		Assumptions: []string{
 			"texts are drawn from the XML-expressible classes without template syntax (identity of text is compared); colours are 6-digit hex as documented; sizes 1-72 pt",
 			"the wording around the page number is not documented: with showPageNum the visible text must contain the caller's text contiguously and a PAGE field must be present",
 			"a formatted call without alignment may leave w:jc absent or left/start",
-			"documents of another producer are minimal valid packages with contiguous relationship ids (rId1 styles, rId2.. headers/footers), relative targets and plain ASCII header texts",
+			"documents of another producer are minimal valid packages (one section, main part word/document.xml, header/footer parts below word/, plain ASCII header texts, unique relationship ids); every spelling of a relationship target the generator uses names the same part by the OPC resolution rules (relative to the folder of the source part, absolute when it starts with /), and the saved package is judged with the same rules",
+			"a header/footer part of an opened document that has a relationship but no reference in w:sectPr does not define its kind; pictures and relationship parts of header/footer parts are not part of the statement and are not compared",
 			"SetDifferentFirstPage is exercised as an interleaved call; w:titlePg itself is not part of the property statement and is only counted (counts observed:titlePg-*)",
 		},
 	})
